@@ -136,6 +136,9 @@ type ksViews struct{}
 
 func (ksViews) Load() error { return nil }
 func (ksViews) Render(w io.Writer, name string, bind any, _ ...string) error {
+	if name == "broken" {
+		return errors.New("template broken: cannot be executed")
+	}
 	m, ok := bind.(fiber.Map)
 	if !ok {
 		_, err := fmt.Fprintf(w, "%s:%v", name, bind)
@@ -511,6 +514,14 @@ func (w *ksWorld) build(cfg fiber.Config) *fiber.App {
 				return err
 			}
 		}
+		// rendering with no variables of its own (only what was bound before, and locals if the option says so)
+		if c.Query("nilbind") != "" {
+			name := ksTmplPath
+			if c.Query("broken") != "" {
+				name = "broken" // the engine fails on it; without an engine there is no such file
+			}
+			return c.Render(name, nil)
+		}
 		// no template engine configured: the name is a file path
 		return c.Render(ksTmplPath, fiber.Map{"page": "p" + strings.Clone(c.Get("X-Op"))})
 	})
@@ -582,6 +593,16 @@ func ksGenerate(s *simrt.Sim, nconn int, flashValid string) []*ksReq {
 			if s.Chance(500) {
 				r.kind = "view-bind"
 				path = "/view?bind=" + simrt.PickS(s, "admin", "guest")
+			}
+			if s.Chance(350) {
+				sep := "?"
+				if strings.Contains(path, "?") {
+					sep = "&"
+				}
+				path += sep + "nilbind=1"
+				if s.Chance(400) {
+					path += "&broken=1"
+				}
 			}
 			if s.Chance(400) {
 				if strings.Contains(path, "?") {
